@@ -13,23 +13,111 @@ KANI_BASE = ["Kani 0.68 goto translation + CBMC 6.11 (cadical) are trusted; dev-
              "unwinding assertions on; every harness has reachability covers that must be SATISFIED"]
 
 
+UNW = ["-Z", "unstable-options", "--cbmc-args", "--unwindset", "memcmp.0:34"]
+
+
 def k_units(prop, tier):
     T = tier == "thorough"
     U = []
+
+    def add(name, timeout, fn, bounds, stubs, robust=None, thorough_only=False, note=""):
+        if thorough_only and not T:
+            return
+        U.append(KUnit(name, timeout, robust, fn, bounds, stubs, extra_args=UNW, note=note))
+
     if prop == "C16":
         fn = ["mini_mcmc::distributions::Categorical::<f32>::new", "<Categorical<f32> as Discrete<f32>>::sample",
               "<Categorical<f32> as Discrete<f32>>::logp", "<Categorical<f32> as Target<usize,f32>>::unnorm_logp"]
+        fn64 = [f.replace("f32", "f64") for f in fn]
         b = ["one sample() call from an arbitrary valid probability vector (each p in [0,1], |sum-1| <= 4*len*eps) "
-             "and an arbitrary 256-bit generator state"]
-        U.append(KUnit("c16_f32_len3", 900, None, fn, b + ["len 3, f32"], [STUB_ENTROPY]))
-        U.append(KUnit("c16_f32_len2", 900, None, fn, b + ["len 2, f32"], [STUB_ENTROPY]))
-        U.append(KUnit("c16_logp_f32", 600, None, fn, ["logp/unnorm_logp: len 3, index 0..5, weights in [0,16]"],
-                       [STUB_ENTROPY, STUB_LN]))
-        if T:
-            fn64 = [f.replace("f32", "f64") for f in fn]
-            U.append(KUnit("c16_f32_len1", 900, None, fn, b + ["len 1, f32"], [STUB_ENTROPY]))
-            U.append(KUnit("c16_f32_len4", 2400, None, fn, b + ["len 4, f32"], [STUB_ENTROPY]))
-            U.append(KUnit("c16_f64_len3", 3600, None, fn64, b + ["len 3, f64"], [STUB_ENTROPY]))
-            U.append(KUnit("c16_logp_f64", 1200, None, fn64, ["logp/unnorm_logp f64: len 3, index 0..5"],
-                           [STUB_ENTROPY, STUB_LN]))
+             "and an arbitrary 256-bit generator state (every producible uniform variate incl. 0 and 1-ulp)"]
+        add("c16_f32_len3", 900, fn, b + ["len 3, f32"], [STUB_ENTROPY])
+        add("c16_f32_len2", 900, fn, b + ["len 2, f32"], [STUB_ENTROPY])
+        add("c16_logp_f32", 600, fn, ["logp/unnorm_logp: len 3, index 0..5, weights in [0,16]"], [STUB_ENTROPY, STUB_LN])
+        add("c16_f32_len1", 900, fn, b + ["len 1, f32"], [STUB_ENTROPY], thorough_only=True)
+        add("c16_f32_len4", 2400, fn, b + ["len 4, f32"], [STUB_ENTROPY], thorough_only=True)
+        add("c16_f64_len3", 3600, fn64, b + ["len 3, f64"], [STUB_ENTROPY], thorough_only=True)
+        add("c16_logp_f64", 1200, fn64, ["logp/unnorm_logp f64: len 3, index 0..5"], [STUB_ENTROPY, STUB_LN],
+            thorough_only=True)
+    if prop in ("C01", "C14"):
+        fn = ["<mini_mcmc::metropolis_hastings::MHMarkovChain<S,F,D,Q> as MarkovChain<S>>::step",
+              "MHMarkovChain::new"]
+        b = ["one step from an arbitrary state x to an arbitrary candidate y; target an arbitrary table on {x,y} "
+             "(any float incl. +-inf/NaN), proposal density an arbitrary asymmetric table on {x,y}^2, arbitrary "
+             "256-bit generator state (every producible acceptance draw incl. 0 and 1-ulp)"]
+        st = [STUB_ENTROPY, STUB_LN]
+        if prop == "C01":
+            add("c01_u8_f32", 1500, fn, b + ["instantiation S=u8, F=f32, len 1"], st, robust="c01_u8_f32_robust")
+            add("c01_i32_f32", 1800, fn, b + ["instantiation S=i32, F=f32, len 1"], st, thorough_only=True)
+            add("c01_f32_f32_len2", 2400, fn, b + ["instantiation S=f32, F=f32, len 2 (bitwise incl. NaN payloads, -0.0)"],
+                st, thorough_only=True)
+            add("c01_u8_f64", 3600, fn, b + ["instantiation S=u8, F=f64, len 1"], st, robust="c01_u8_f64_robust",
+                thorough_only=True)
+            add("c01_f64_f64_len2", 5400, fn, b + ["instantiation S=f64, F=f64, len 2"], st, thorough_only=True)
+        else:
+            b14 = ["as C01, restricted to lp(x) finite and lp(y) in {-inf, NaN}; all proposal densities incl. +-inf/NaN; "
+                   "all acceptance draws incl. exactly 0 (which the property exempts)"]
+            add("c14_mh_u8_f32", 1500, fn, b14 + ["instantiation S=u8, F=f32, len 1"], st)
+            add("c14_mh_f64_f64_len2", 5400, fn, b14 + ["instantiation S=f64, F=f64, len 2"], st, thorough_only=True)
+    if prop == "C05":
+        fn = ["<mini_mcmc::gibbs::GibbsMarkovChain<S,D> as MarkovChain<S>>::step"]
+        b = ["one step; dimension symbolic in 1..dmax; every answer of the conditional a solver variable"]
+        add("c05_u8_d4", 600, fn, b + ["S=u8, dmax 4"], [])
+        add("c05_f64_d3", 900, fn, b + ["S=f64 (bitwise), dmax 3"], [])
+        add("c05_u8_d6", 1800, fn, b + ["S=u8, dmax 6"], [], thorough_only=True)
+        add("c05_i32_d4", 900, fn, b + ["S=i32, dmax 4"], [], thorough_only=True)
+    if prop in ("C07", "C08"):
+        fn = ["mini_mcmc::metropolis_hastings::MetropolisHastings::<f64,f64,D,Q>::new", "MetropolisHastings::seed",
+              "MHMarkovChain::new", "IsotropicGaussian::<f64>::{new,set_seed}", "GibbsSampler::set_seed"]
+        st = [STUB_ENTROPY, STUB_SEED]
+        b = ["seed symbolic over all of u64; OS entropy of every from_os_rng request symbolic; chain count concrete"]
+        add("c07_mh_seeded_iso_n2", 1500, fn, b + ["MH, IsotropicGaussian proposal, 2 chains, two constructions "
+                                                    "under different entropy"], st)
+        add("c07_mh_seeded_iso_n2_top", 1500, fn, b + ["same, seed restricted to the top 9 values of u64 (per-chain "
+                                                        "offsets wrap)"], st)
+        add("c08_mh_seeded_user_n2", 900, fn, b + ["MH, user-defined seed-recording proposal, 2 chains"], st)
+        if prop == "C07":
+            add("c07_gibbs_seeded_n3", 900, fn, b + ["Gibbs, 3 chains"], st)
+            add("c07_gibbs_seeded_n3_top", 900, fn, b + ["Gibbs, 3 chains, top of the seed range"], st)
+        if prop == "C08":
+            add("c08_mh_unseeded_iso_n2", 900, fn, ["default construction, 2 chains, all OS entropy symbolic; "
+                                                    "obligation: generators are not copies (exists entropy with "
+                                                    "different states)"], [STUB_ENTROPY, STUB_SEED])
+            add("c08_mh_unseeded_iso_n3", 1500, fn, ["default construction, 3 chains"], [STUB_ENTROPY, STUB_SEED],
+                thorough_only=True)
+        add("c07_mh_seeded_iso_n3", 3000, fn, b + ["MH, IsotropicGaussian, 3 chains"], st, thorough_only=True)
+        add("c08_mh_seeded_user_n3", 1800, fn, b + ["MH, user-defined proposal, 3 chains"], st, thorough_only=True)
+    if prop == "C09":
+        fn = ["mini_mcmc::core::run_chain::<u32, M> (through the real ndarray Array2)"]
+        b = ["user-defined counting MarkovChain with symbolic start value; sizes concrete per harness "
+             "(symbolic sizes exhaust CBMC's memory)"]
+        add("c09_runchain_d2_c2_d1_m1", 900, fn, b + ["dim 2, run(2,1) then run(1,0)"], [])
+        add("c09_runchain_d1_c0_d2_m2", 900, fn, b + ["dim 1, run(0,2) then run(2,0)"], [])
+        add("c09_runchain_d2_c1_d0_m1", 900, fn, b + ["dim 2, run(1,0) then run(1,0)"], [])
+        add("c09_runchain_d1_c3_d2_m0", 1200, fn, b + ["dim 1, run(3,2) then run(0,0)"], [], thorough_only=True)
+        add("c09_runchain_d2_c3_d3_m2", 1500, fn, b + ["dim 2, run(3,3) then run(2,0)"], [], thorough_only=True)
+    if prop == "C11":
+        fn = ["mini_mcmc::stats::basic_stats (incl. std's sort_by with the repo's comparator closure)"]
+        st = ["stub f32::sqrt -> contract function; stub f32::mul_add -> a*b+c (CBMC's libm models raise "
+              "feraiseexcept assertions that are not Rust semantics); the std field is not inspected here"]
+        add("c11_basic_fin_n3", 600, fn, ["3 arbitrary finite f32"], st)
+        add("c11_basic_any_n3", 600, fn, ["3 arbitrary f32 incl. NaN/inf: no failure"], st)
+        add("c11_basic_fin_n4", 900, fn, ["4 arbitrary finite f32"], st)
+    if prop == "C13":
+        fn = ["mini_mcmc::stats::MultiChainTracker::{new, step}"]
+        add("c13_multi_f32", 2400, fn, ["2 chains x 2 params, 2 updates, arbitrary f32 incl. NaN"], [],
+            robust="c13_multi_f32_robust", thorough_only=True)
+    if prop == "C18":
+        fn = ["mini_mcmc::core::{init, init_det, init_with_seed, _init}::<f32|f64>"]
+        st = [STUB_ENTROPY, STUB_SEED, STUB_ZIG]
+        b = ["seed symbolic over all of u64; sizes (n, d) concrete per harness"]
+        add("c18_seeded_f64_1_2x2", 600, fn, b + ["f64: n=1 vs n=2, d=2"], st)
+        add("c18_seeded_f32_1_2x2", 600, fn, b + ["f32: n=1 vs n=2, d=2"], st)
+        add("c18_det_f32_2x2", 600, fn, ["init_det vs init_with_seed(42), f32 2x2"], st)
+        add("c18_unseeded_f64_2x2", 600, fn, ["init (OS entropy symbolic), f64 2x2"], st)
+        add("c18_seeded_f64_2_3x1", 900, fn, b + ["f64: n=2 vs n=3, d=1"], st, thorough_only=True)
+        add("c18_seeded_f64_2_3x3", 1800, fn, b + ["f64: n=2 vs n=3, d=3"], st, thorough_only=True)
+        add("c18_seeded_f32_0_1x2", 600, fn, b + ["f32: n=0 vs n=1, d=2"], st, thorough_only=True)
+        add("c18_det_f64_2x2", 600, fn, ["init_det vs init_with_seed(42), f64 2x2"], st, thorough_only=True)
+        add("c18_unseeded_f32_3x1", 600, fn, ["init (OS entropy symbolic), f32 3x1"], st, thorough_only=True)
     return U
